@@ -117,10 +117,11 @@ CHECKS = {
             'segment the collider uses is the nearest one to the sphere centre (quadratic along the unit axis, minimised by the clamped projection), the contact '
             'is reported exactly when that distance is within reach and dist is the gap between the two surfaces; plane-capsule (mjc_PlaneCapsule, on the model / data arrays): '
             'one contact per end sphere within margin, upper end first, each with the plane-sphere distance, normal, midpoint position and the capsule axis as tangent; '
-            'getMargin / getGap select the pair or geom values.',
-            'Trusted: VC generator, clang, z3/cvc5; doubles as reals, sqrt abstraction. Not covered (listed): capsule-capsule and cylinder/box colliders, '
+            'sphere-cylinder (mjc_SphereCylinder): the contact is reported exactly when, and reports, the gap to the nearest feature of the solid cylinder - cap plane, '
+            'round side, rim point, or (centre inside) the nearer of cap and side; getMargin / getGap select the pair or geom values.',
+            'Trusted: VC generator, clang, z3/cvc5; doubles as reals, sqrt abstraction. Bounded stand-in (not counted): the compiled mjc_SphereCylinder on 4000 seeded poses. Not covered (listed): capsule-capsule and cylinder/box colliders, '
             'mj_geomDistance, GJK/EPA; mju_makeFrame with a supplied tangent.',
-            'contracts + symbolic execution of the real bodies, z3/cvc5 NRA'),
+            'contracts + symbolic execution of the real bodies, z3/cvc5 NRA; bounded native stand-in'),
     'C14': ('DESIGN.md section 4 / C14',
             'Deductive proof of the filter predicates: filterBitmask (bit-vectors: filtered iff no shared contype/conaffinity bit, symmetric), '
             'filterBodyPair (the documented rules as a truth table, symmetric in the two bodies), canCollide2, and soundness of the geometric '
